@@ -183,6 +183,9 @@ func runC10(c *Ctx) {
 					if typ == 2 && c.R.Chance(30) {
 						to = imported
 						imported = "renamed.local" // the import's Subject; the bound subject is To
+					} else if typ == 1 && c.R.Chance(35) {
+						// a stream import may carry the deprecated To as well: the binding is still about Subject
+						to = []string{"elsewhere.local", sb.grantBad, "zzz.>", sb.imported}[c.R.Intn(4)]
 					}
 					// build the activation
 					actSub, actType, grant := importer, typ, sb.grantOK
